@@ -262,6 +262,7 @@ def reencrypt_history(mon: Mon, N: int):
             obj = cls({"enc": enc}, b"the same plaintext every time")
             obj.add_recipient({"alg": alg}, priv)
             ctx.cell("history", "re-encrypt", alg, enc)
+            last_epk = None
             for idx in range(N):
                 ctx.ev()
                 o = call(j.jwe.encrypt_json, obj, None, algorithms=allow)
@@ -272,6 +273,14 @@ def reencrypt_history(mon: Mon, N: int):
                 ctx.count("reencryptions")
                 prot, rl, iv = token_parts(o.value)
                 bags["iv"].add(iv, idx)
+                if alg.startswith("ECDH"):
+                    # two successive encryptions of ONE object: each token carries an ephemeral key of its own in the recipient's header
+                    epk_now = json.dumps((rl[0][0] or {}).get("epk"), sort_keys=True)
+                    if idx % 2 == 0 and idx > 0 and epk_now == last_epk and epk_now != "null":
+                        ctx.violation("repeated:epk:one-object-encrypted-twice", f"{name}: encryptions #{idx - 1} and #{idx} of one JSON encryption object (key attached with "
+                                      f"add_recipient) carry the same ephemeral key {epk_now[:80]}", {"history": name, "idx": idx})
+                    last_epk = epk_now
+                    ctx.count("epk_of_successive_encryptions_compared")
                 if "cek" in bags and (not alg.startswith("RSA") or idx % 10 == 0):
                     try:
                         h, ek = rl[0]
